@@ -2,6 +2,7 @@ package main
 
 import (
 	"bytes"
+	"crypto"
 	stded "crypto/ed25519"
 	"errors"
 	"fmt"
@@ -309,6 +310,15 @@ func coherent(v *Verdict, pub, priv []byte, act string) bool {
 	return true
 }
 
+// signerWrapper is a foreign type that implements crypto.Signer on top of a
+// key of this package (an HSM handle would look like this).
+type signerWrapper struct{ k ed25519.PrivateKey }
+
+func (s signerWrapper) Public() crypto.PublicKey { return s.k.Public() }
+func (s signerWrapper) Sign(r io.Reader, m []byte, o crypto.SignerOpts) ([]byte, error) {
+	return s.k.Sign(r, m, o)
+}
+
 // ---------------------------------------------------------------- C14: accessors as a state machine
 
 const nAccSteps = 15
@@ -416,6 +426,15 @@ func checkAccessors(c *Case, v *Verdict) {
 				return
 			}
 			cp := append([]byte{}, k...)
+			// other values that can sign with, or point at, the very same key
+			// are still not "byte-identical keys of the same type"
+			kk := k
+			for _, f := range []interface{}{&kk, signerWrapper{k}, &signerWrapper{k}, crypto.Signer(signerWrapper{k})} {
+				if k.Equal(f) {
+					fail("equal-foreign", "false", "true", fmt.Sprintf("PrivateKey.Equal is true for a value of type %T", f))
+					return
+				}
+			}
 			foreign := []interface{}{stded.PrivateKey(cp), stded.PublicKey(cp[32:]), cp, &cp, nil, string(cp), [64]byte{}, ed25519.PublicKey(cp[32:]), ed25519.PublicKey(cp)}
 			for _, f := range foreign {
 				if k.Equal(f) {
